@@ -23,7 +23,7 @@ type Opts struct {
 var AllFeatures = []string{
 	"async", "err", "multi", "bind", "struct", "value", "sets", "lit", "ext", "ctxparam",
 	"composite", "basic", "args", "unneeded", "multi-inj", "multi-file", "dupparam",
-	"generic", "variadic", "variadic-functype", "want-unsupplied", "kalias", "extalias",
+	"generic", "variadic", "variadic-functype", "want-unsupplied", "kalias", "extalias", "value-and-pointer",
 	"async-struct", "ptrrecv", "aiface", "embedded",
 }
 
@@ -56,6 +56,7 @@ type gen struct {
 	consumed map[TypeID]bool
 	last     bool
 	curExt   string
+	pending  map[TypeID]bool
 	roots    int // the first `roots` units take no provided inputs (fork), the last unit joins
 }
 
@@ -271,6 +272,18 @@ func (g *gen) freshValueType(extOnly bool, label string) TypeID {
 		s := g.newStruct("", false)
 		return g.addType(Type{Kind: KPtr, Elem: s})
 	case 3:
+		// sometimes the value form of a struct whose pointer form is already supplied (or vice versa)
+		if g.want("value-and-pointer", "valptr", 35) {
+			for i := len(g.supplied) - 1; i >= 0; i-- {
+				t := g.c.T(g.supplied[i])
+				if t.Kind == KPtr && g.c.T(t.Elem).Kind == KStruct && g.c.T(t.Elem).Pkg == "" && len(g.c.T(t.Elem).Fields) == 0 {
+					if _, taken := g.supplierUnit[t.Elem]; !taken && !g.pending[t.Elem] {
+						g.pending[t.Elem] = true
+						return t.Elem
+					}
+				}
+			}
+		}
 		return g.newStruct("", false)
 	case 4:
 		return g.addType(Type{Kind: KNBasic, Name: g.typeName("N"), Basic: rapid.SampledFrom(nbasicUnder).Draw(g.rt, "under")})
@@ -419,7 +432,7 @@ func Gen(rt *rapid.T, o Opts) *Case {
 	if o.MaxFiles == 0 {
 		o.MaxFiles = 1
 	}
-	g := &gen{rt: rt, c: &Case{}, o: o, used: map[string]bool{}, nameSeq: map[string]int{}, supplierUnit: map[TypeID]int{}, basicsUsed: map[string]bool{}, consumed: map[TypeID]bool{}}
+	g := &gen{rt: rt, c: &Case{}, o: o, used: map[string]bool{}, nameSeq: map[string]int{}, supplierUnit: map[TypeID]int{}, basicsUsed: map[string]bool{}, consumed: map[TypeID]bool{}, pending: map[TypeID]bool{}}
 	g.c.Types = []Type{{ID: 0, Kind: "none"}}
 	if g.want("kalias", "kalias", 10) {
 		g.c.KAlias = "ksk"
@@ -554,6 +567,15 @@ func (g *gen) genUnit(i int) {
 		seen[t] = true
 		g.consumed[t] = true
 		p.Params = append(p.Params, t)
+	}
+	// variadic: append a slice-typed parameter that is spelled ...Elem
+	if !extForm && g.want("variadic", "variadic", 8) {
+		el := g.addType(Type{Kind: KNBasic, Name: g.typeName("N"), Basic: "int"})
+		sl := g.addType(Type{Kind: KSlice, Elem: el})
+		// the slice is either an injector argument or supplied by an earlier value/provider
+		g.argTypes = append(g.argTypes, sl)
+		p.Params = append(p.Params, sl)
+		p.Variadic = true
 	}
 	// results
 	nRes := 1
